@@ -1008,11 +1008,18 @@ func TestVerifC01(t *testing.T) {
 			}{vCfg{capacity: 100, reqSized: false}, []vInc{{sc, -1}, {[]vOp{rd, off(13), {2, 0, 1}}, b}}})
 		}
 	}
-	// guarded regression case of finding C01-RECOVERY-BLOCKS (block_on_overflow, request 1 in flight, queue refilled)
+	// regression case of the repaired finding C01-RECOVERY-BLOCKS (block_on_overflow, request 1 in flight, queue refilled to
+	// capacity, restart): Start must complete — a Start that parks is reported by the oracle start-blocks-in-recovery
 	fixed = append(fixed, struct {
 		c    vCfg
 		incs []vInc
 	}{vCfg{capacity: 2, reqSized: true, block: true}, []vInc{warm, {[]vOp{off(1), rd, off(2), off(3), off(4)}, -1}}})
+	for _, b := range []int{2, 3, 4} { // ... and with a death inside the recovering incarnation before the restart that must complete
+		fixed = append(fixed, struct {
+			c    vCfg
+			incs []vInc
+		}{vCfg{capacity: 3, reqSized: true, block: true}, []vInc{warm, {[]vOp{off(1), off(2), rd, rd, off(3), off(4), off(5)}, -1}, {[]vOp{rd}, b}}})
+	}
 	for _, f := range fixed {
 		h, _ := vRunHistory(f.c, f.incs, true)
 		vEmit(out, h)
